@@ -64,7 +64,9 @@ func scenAdapter(env *vlib.Env, scen int) (adapter, *vlib.Rng, bool) {
 	big := scen%2 == 1
 	sel := (scen / 2) % 3
 	if scen >= scriptedBase {
-		big, sel = false, (scen-scriptedBase)%3
+		// nothing in a scripted scenario is left to the seed: it must reach its fork, its failed
+		// reset and its flip-back at every seed
+		big, sel, start = false, (scen-scriptedBase)%3, 0
 	}
 	var ad adapter
 	switch sel {
@@ -438,6 +440,9 @@ func runScenario(ctx context.Context, env *vlib.Env, rep *vlib.Reporter, idx int
 		case act < 5: // extend by 1..4 blocks, observe each or only the last
 			k := 1 + r.Intn(4)
 			each := r.Chance(1, 2)
+			if scripted {
+				k, each = 3, true
+			}
 			script += fmt.Sprintf(" +%d", k)
 			for i := 0; i < k && ok; i++ {
 				head = w.extend(head)
